@@ -147,3 +147,64 @@ package hybridbuffer
 //@   ensures[balance] bal(man) == old(bal(man))
 //@   ensures  chunkRef.Saved == old(chunkRef.Saved) && (old(chunkRef.Data) != nil ==> chunkRef.Data === old(chunkRef.Data))
 //@   ensures  result && old(chunkRef.Data) == nil ==> len(chunkRef.Data) <= fsize[key(chunkRef.ID)] && forall i int :: 0 <= i && i < len(chunkRef.Data) ==> chunkRef.Data[i] == fcontent[key(chunkRef.ID)][i]
+
+// ==== feeder and bufferer: every chunk taken from a channel is resolved exactly once ===========================================================
+//@ pure func validfeeder(f *outputFeeder) bool := f != nil && validman(&f.chunkMan) && f.inputChannel != nil && f.outputChannel != nil && f.inputClosed != nil
+//@      && f.metrics.queuedChunksTransient != nil && f.metrics.queuedChunksPersistent != nil && f.inputChannel != f.outputChannel
+// lastsentlen: ghost — length of the data of the chunk most recently offered to the output channel
+//@ ghost var lastsentlen int
+
+// a loaded chunk is forwarded, or counted (dropped when it cannot be loaded, corrupt when it is empty) — exactly one of
+// these; "zero-length files are treated as corrupt and removed instead of forwarded"; a failed or corrupt load does not stop
+// the feeder (true is returned: false only when the input side is being closed, and then the chunk is handed back)
+//@ func (feeder *outputFeeder) loadToOutput(chunk base.LogChunk) bool
+//@   requires validfeeder(feeder)
+//@   modifies everything
+//@   preserves outputFeeder.*, chunkManager.*, chunkOperator.*, chunkManagerMetrics.*, chunkOperatorMetrics.*, bufferMetrics.*
+//@   ghostset lastsentlen := len(cur(chunk).Data)
+//@   ensures[resolved-exactly-once] result ==> resolved + nsent(feeder.outputChannel) == old(resolved + nsent(feeder.outputChannel)) + 1
+//@   ensures[handed-back-when-closing] !result ==> resolved == old(resolved) && nsent(feeder.outputChannel) == old(nsent(feeder.outputChannel))
+//@   ensures[never-forward-an-empty-chunk] nsent(feeder.outputChannel) != old(nsent(feeder.outputChannel)) ==> lastsentlen > 0
+//@   ensures[balance] bal(&feeder.chunkMan) == old(bal(&feeder.chunkMan))
+
+// shutdown: every chunk still queued (input channel), the chunk in hand and every chunk still in the in-memory window (output
+// channel) is saved to disk or dropped-and-counted: nothing is left only in memory, nothing is silently discarded
+//@ func (feeder *outputFeeder) saveEverything(lastInputChunk base.LogChunk)
+//@   requires validfeeder(feeder)
+//@   modifies everything
+//@   preserves outputFeeder.*, chunkManager.*, chunkOperator.*, chunkManagerMetrics.*, chunkOperatorMetrics.*, bufferMetrics.*
+//@   ensures[everything-taken-is-saved-or-counted] resolved - nrecv(feeder.inputChannel) - nrecv(feeder.outputChannel)
+//@        == old(resolved - nrecv(feeder.inputChannel) - nrecv(feeder.outputChannel)) + (len(lastInputChunk.ID) > 0 ? 1 : 0)
+//@   ensures[balance] bal(&feeder.chunkMan) == old(bal(&feeder.chunkMan))
+//@   loop 1: invariant validfeeder(feeder) && bal(&feeder.chunkMan) == old(bal(&feeder.chunkMan))
+//@        && resolved - nrecv(feeder.inputChannel) - nrecv(feeder.outputChannel) == old(resolved - nrecv(feeder.inputChannel) - nrecv(feeder.outputChannel))
+//@   loop 2: invariant validfeeder(feeder) && bal(&feeder.chunkMan) == old(bal(&feeder.chunkMan))
+//@        && resolved - nrecv(feeder.inputChannel) - nrecv(feeder.outputChannel) == old(resolved - nrecv(feeder.inputChannel) - nrecv(feeder.outputChannel)) + (len(lastInputChunk.ID) > 0 ? 1 : 0)
+
+//@ pure func notmanmetric(x int, m *chunkManager) bool := distinctfrom3(x, m) && x != ref(m.metrics.pendingChunks) && x != ref(m.metrics.inputChunksTotalTransient) && x != ref(m.metrics.inputChunksTotalPersistent)
+//@      && x != ref(m.metrics.consumedChunksTotal) && x != ref(m.metrics.leftoverChunksTotal) && x != ref(m.metrics.droppedChunksTotal)
+//@ pure func validbuf(b *bufferer) bool := b != nil && validman(&b.chunkMan) && b.feeder.outputChannel != nil && b.inputChannel != nil && b.metrics.queuedChunksTransient != nil && b.metrics.queuedChunksPersistent != nil
+//@      && notmanmetric(ref(b.metrics.queuedChunksTransient), &b.chunkMan) && notmanmetric(ref(b.metrics.queuedChunksPersistent), &b.chunkMan)
+
+// "Accepting a chunk never blocks on a stalled consumer": every channel operation in Accept is a select with default.
+// The accepted chunk is enqueued, or dropped and counted — exactly one of the two.
+//@ func (buf *bufferer) Accept(chunk base.LogChunk)
+//@   flag nonblocking
+//@   requires validbuf(buf) && len(chunk.Data) < 4611686018427387904
+//@   modifies everything
+//@   preserves bufferer.*, outputFeeder.*, chunkManager.*, chunkOperator.*, chunkManagerMetrics.*, chunkOperatorMetrics.*, bufferMetrics.*
+//@   ensures[enqueued-or-counted-as-dropped] (nsent(buf.inputChannel) == old(nsent(buf.inputChannel)) + 1 && mdropped(&buf.chunkMan) == old(mdropped(&buf.chunkMan)))
+//@        || (nsent(buf.inputChannel) == old(nsent(buf.inputChannel)) && mdropped(&buf.chunkMan) == old(mdropped(&buf.chunkMan)) + 1)
+//@   ensures[balance] bal(&buf.chunkMan) == old(bal(&buf.chunkMan))
+//@   ensures[counted-as-input] minput(&buf.chunkMan) == old(minput(&buf.chunkMan)) + 1
+
+// recovery enqueues without blocking, in scan order, and counts every recovered chunk as (persistent) input
+//@ func (buf *bufferer) recoverExistingChunks()
+//@   flag nonblocking
+//@   requires validbuf(buf)
+//@   modifies everything
+//@   preserves bufferer.*, outputFeeder.*, chunkManager.*, chunkOperator.*, chunkManagerMetrics.*, chunkOperatorMetrics.*, bufferMetrics.*
+//@   ensures[balance] bal(&buf.chunkMan) == old(bal(&buf.chunkMan))
+//@   ensures[every-enqueued-chunk-counted] nsent(buf.inputChannel) - old(nsent(buf.inputChannel)) == minput(&buf.chunkMan) - old(minput(&buf.chunkMan))
+//@   loop 1: invariant validbuf(buf) && bal(&buf.chunkMan) == old(bal(&buf.chunkMan))
+//@        && nsent(buf.inputChannel) - old(nsent(buf.inputChannel)) == minput(&buf.chunkMan) - old(minput(&buf.chunkMan))
